@@ -178,6 +178,7 @@ var props = map[string]propDef{
 	"C02": {"C02", "proxy", 40, 600, "W-proxy", 0},
 	"C03": {"C03", "proxy", 40, 600, "W-proxy", 0},
 	"C10": {"C10", "proxy", 40, 600, "W-proxy", 0},
+	"C09": {"C09", "proxy", 40, 600, "W-proxy", 0},
 	"C05": {"C05", "lb", 30, 600, "W-lb", 200},
 	"C06": {"C06", "lb", 30, 600, "W-lb", 50},
 	"C16": {"C16", "health", 30, 600, "W-health", 100},
